@@ -1,0 +1,6 @@
+//go:build !verif
+// +build !verif
+
+package graphql
+
+func verifYield(site string) {}
